@@ -200,7 +200,12 @@ def run_check(tier: str, seed: int, workers: Any) -> Dict[str, Any]:
         assumptions=[], bounds=dict(budget, n_items=2), describe=lambda u: {'items': u[0][0], 'how': u[0][1]})
     for v in part2['violations']:
         v['features'] = dict(v.get('features', {}), part='workchain')
-    return runner.merge([part1, part2])
+    tiny = [((('S', (), 'wait'), ('S', (), 'ret')), None), ((('Y1', (), 'ret'),), None)]
+    deep = {'K': 4, 'J': 0} if tier == 'quick' else {'K': 5, 'J': 0}
+    part3 = runner.run_explorer(
+        factory, (), tiny, deep, seed, workers,
+        rule=f'the two smallest programs with <= {deep["K"]} requests', assumptions=[], bounds=deep, describe=describe_unit)
+    return runner.merge([part1, part2, part3])
 
 
 def run_processes(tier: str, seed: int, workers: Any) -> Dict[str, Any]:
